@@ -13,7 +13,7 @@ RULE = (
 )
 DECIDING = ["compiled", "qubits_checked", "uncompute_all_calls", "replayed_gates"]
 ASSUMPTIONS = ["input qubits are 0..n-1; output qubits are qubit_map[return bits]; all other qubits are scratch"]
-CASE_TIMEOUT = {"quick": 60, "thorough": 120}
+CASE_TIMEOUT = {"quick": 25, "thorough": 90}
 
 
 def cases(tier, seed):
